@@ -23,10 +23,17 @@ func newReplayWindow(size int) *replayWindow {
 // check 检查序列号是否应接受
 // 返回 true 表示接受（新序列号，非重放）
 func (w *replayWindow) check(seq uint48) bool {
+	// 位图只有 64 位：配置的窗口大于 64 时，有效窗口为 64，
+	// 否则距右边缘 64 及以上的序列号无法记录，重放会被反复接受。
+	size := uint48(w.size)
+	if size > 64 {
+		size = 64
+	}
+
 	// 情况1：序列号大于右边缘 → 窗口右移
 	if seq > w.right {
 		diff := seq - w.right
-		if diff >= uint48(w.size) {
+		if diff >= size {
 			// 跳跃超过窗口大小 → 清空位图
 			w.bitmap = 0
 		} else {
@@ -40,7 +47,7 @@ func (w *replayWindow) check(seq uint48) bool {
 
 	// 情况2：序列号在窗口左侧 → 拒绝
 	diff := w.right - seq
-	if diff >= uint48(w.size) {
+	if diff >= size {
 		return false
 	}
 
